@@ -16,16 +16,23 @@ Section O14.
     match lookup_path p (Dir d) with Some (File c m) => Some (c, m) | _ => None end.
 
   (* [deep] says how "different content" is decided: the comparison the call was asked to use *)
-  Definition conflicts (deep : bool) (i : sinput) (sd dd : dir) : list (path * (content * Z) * (content * Z)) :=
+  Definition conflicts_gen (excl : path -> bool) (deep : bool) (i : sinput) (sd dd : dir)
+    : list (path * (content * Z) * (content * Z)) :=
     flat_map (fun e =>
                 match file_at (fst e) sd, file_at (fst e) dd with
                 | Some (c1, m1), Some (c2, m2) =>
                     if (o_recursive (i_opts i) || Nat.eqb (length (fst e)) 1)
-                       && negb (path_excluded i (fst e))
+                       && negb (excl (fst e))
                        && negb (file_same frepr deep c1 m1 c2 m2)
                     then [(fst e, (c1, m1), (c2, m2))] else []
                 | _, _ => []
                 end) (flat sd).
+
+  (* obligations are stated for files no component of whose path matches an exclude pattern ... *)
+  Definition conflicts (deep : bool) (i : sinput) := conflicts_gen (path_excluded i) deep i.
+  (* ... while a FileSyncConflict is justified by any differing file whose own name is not excluded *)
+  Definition conflicts_by_name (deep : bool) (i : sinput) :=
+    conflicts_gen (fun p => path_excluded i [last_name p]) deep i.
 
   Definition is_content (c : content) (x : option (content * Z)) : bool :=
     match x with Some (c', _) => content_eqb frepr c c' | None => false end.
@@ -72,7 +79,7 @@ Section O14.
      whatever the strategy answers, files that exist only in the source are copied (C13's superset clause) *)
   Definition any_conflict (deep : bool) (i : sinput) : bool :=
     existsb (fun pr => match snd pr with
-                       | Some dd => nonempty (conflicts deep i (snd (fst pr)) dd)
+                       | Some dd => nonempty (conflicts_by_name deep i (snd (fst pr)) dd)
                        | None => false
                        end) (pairs i).
 
